@@ -252,3 +252,9 @@ mod tests {
         assert!(codec.decode(&mut buf).is_err());
     }
 }
+
+#[cfg(kani)]
+#[allow(semicolon_in_expressions_from_non_local_macros, unused)]
+mod verif_kani {
+    include!(concat!(env!("VERIF_HARNESS"), "/actix_http/h1_codec.rs"));
+}
